@@ -323,6 +323,8 @@ private theorem compileDistribute_nn (cfg : Cfg) (S D : Labware) (a : DistArgs) 
   apply AllNN.exceptMicros
   intro ps
   split
+  · exact AllNN.fail _
+  split
   · split
     · exact AllNN.fail _
     · refine AllNN.append (AllNN.append (AllNN.append (AllNN.append (compileRemove_nn _ _ _ _ _) ?_)
